@@ -612,3 +612,26 @@ def splitter_preconditions(db, ctx):
     if not n_sites[0]:
         raise AnchorMissing("sentence_detector: unwrap of the first character of text[pos..]")
     ctx.floor(1)
+
+
+@rule("C03.edits-consumed", "a rejected (too long) analysis leaves no pending edits behind: stale edits applied to the next text index out of its range "
+                            "(re-evaluation of C10.edits-consumed)")
+def edits_consumed_reeval(db, ctx):
+    from . import C10
+    C10.edits_consumed(db, ctx)
+    ctx.floor(2)
+
+
+@rule("C03.no-stale-buffers", "no growable buffer of the tokenizer / input buffer / lattice carries data of the previous input into the next analysis: stale "
+                              "rows, edits or memo tables are indexed with the new text's positions (re-evaluation of C10.kill-grow)")
+def no_stale_buffers(db, ctx):
+    from . import C10
+    C10.kill_grow(db, ctx)
+
+
+@rule("C03.every-left-neighbour", "a node is connected to EVERY left neighbour that is reachable from BOS — the only skip is the unreachable neighbour — so a "
+                                  "node inserted at a reachable boundary is itself reachable and the fallback OOV keeps BOS and EOS connected (re-evaluation "
+                                  "of C02.relax-all)")
+def every_left_neighbour(db, ctx):
+    from . import C02
+    C02.relax_all(db, ctx)
